@@ -17,8 +17,10 @@ ASSUMPTIONS = ["inner levels are non-empty (an empty inner dict has no flat repr
 REACH_FILES = ['d42/utils/_rollout.py']
 TIERS = {"quick": dict(shards=16, cases=30000, exh_leaves=3), "thorough": dict(shards=16, cases=600000, exh_leaves=4)}
 
-SEPS = [".", "|", "::", "__", "/", " "]
-KEYPOOL = ["a", "b", "c", "id", "name", "", "x1", "ключ", "a-b", "A", "0", "items", "meta", "k"]
+SEPS = [".", "|", "::", "__", "/", " ", "\\", "+", "$", "->"]
+KEYPOOL = ["a", "b", "c", "id", "name", "", "x1", "ключ", "a-b", "A", "0", "items", "meta", "k",
+           # keys that an escaping / regex-splitting / formatting rollout would trip over
+           "C:\\", "a\\", "\\", "a\\b", "%s", "{k}", "a*", "[0]", "(x", "^a", "a\n", "\\\\"]
 
 
 class Leaf:
